@@ -262,7 +262,10 @@ def _edge_cases(tier):
     vals = [1.0, 2.5]
     pool = [(r, c, x) for r in labels for c in labels[:2] + ["d"] for x in vals[:1]] + [("a", "a", 2.5), ("b", "d", -1.0)]
     kws = [{}, {"joint_space": True}, {"row_label_dictionary": {"a": 0, "b": 1, "q": 2}},
-           {"column_label_dictionary": {"b": 0, "a": 1, "x": 2}}, {"joint_space": True, "column_label_dictionary": {"a": 0, "b": 1, "c": 2, "d": 3}}]
+           {"column_label_dictionary": {"b": 0, "a": 1, "x": 2}}, {"joint_space": True, "column_label_dictionary": {"a": 0, "b": 1, "c": 2, "d": 3}},
+           # user dictionaries whose indices have gaps (the shape is the largest index + 1, not the number of labels)
+           {"column_label_dictionary": {"b": 2, "a": 4}}, {"row_label_dictionary": {"a": 1, "c": 3}},
+           {"row_label_dictionary": {"b": 5}, "column_label_dictionary": {"d": 1, "a": 3}}]
     tests = [[("a", "a", 1.0)], [("c", "d", 1.0), ("c", "d", 2.0)], [("z", "a", 1.0), ("a", "z", 1.0), ("a", "b", 4.0)], [("b", "a", 1.0), ("b", "a", 1.0), ("a", "b", 0.5), ("c", "a", 3.0)]]
     nmax = 3 if tier == "quick" else 4
     for n in range(1, nmax + 1):
